@@ -730,7 +730,7 @@ impl Accept {
 //@end
 
 #[verifier::exec_allows_no_decreases_clause]
-//@extract file=actix-server/src/accept.rs item="impl Accept / fn accept" props=C01,C03,C05,C06
+//@extract file=actix-server/src/accept.rs item="impl Accept / fn accept" props=C01,C03,C05,C06 trace_calls="accept_one"
 //@spec
     requires
         old(self).wf(),
@@ -757,6 +757,10 @@ impl Accept {
             && final(sockets)@[token as int].lst.registered() == old(sockets)@[token as int].lst.registered(),
 //@insert after="Ok(io) => {"
                     assert(io.origin() == token as int);   // [C01] the stream is tagged with the listener it came from
+                    let ghost t0 = r24_trace.len();
+//@insert arm_end="Ok(io) =>"
+                    // an accepted connection is handed to the dispatcher, exactly once — never dropped on the floor   [C01]
+                    assert(r24_trace.len() == t0 + 1);   // [C01]
 //@insert before="return;"
                     assert(info.timeout.is_some() && info.timeout.unwrap().t() == now_spec() + 500 * 1_000_000);   // [C05] ~500 ms back-off
                     assert(!info.lst.registered());   // [C05]
@@ -953,7 +957,7 @@ impl Accept {
 //@end
 
 #[verifier::exec_allows_no_decreases_clause]
-//@extract file=actix-server/src/accept.rs item="impl Accept / fn poll_with" props=C05,C06,C01,C03 intended_panics noreach trace_calls="poll.poll,process_timeout"
+//@extract file=actix-server/src/accept.rs item="impl Accept / fn poll_with" props=C05,C06,C01,C03 intended_panics noreach trace_calls="poll.poll,process_timeout,accept,handle_waker"
 //@spec
     requires
         old(self).wf(),
@@ -971,11 +975,17 @@ impl Accept {
             // every wake-up of the accept loop ends with the back-off check (process_timeout): whatever woke the poll,
             // an expired back-off is noticed in the same iteration   [C05]
             r24_trace.len() == 0 || r24_trace.last() == 1int,   // [C05]
+//@insert loop_start=2
+                let ghost e0 = r24_trace.len();
+//@insert arm_end="_ =>" nth=2
+                        // a listener event is acted upon (unless the server is paused: the listener is registered again on
+                        // resume): readiness reported by the poll is never silently dropped   [C01,C03]
+                        assert(self.paused || r24_trace.len() == e0 + 1 && r24_trace.last() == 2int);   // [C01,C03]
 //@loop 2
         invariant
             r9_n <= events.spec_len(),
             events.bound() == self.reg().token_bound(),
-            r24_trace.len() > 0 && r24_trace.last() == 0int,
+            r24_trace.len() > 0,
             self.wf(),
             sockets_wf(sockets@, self.reg().token_bound()),
             i5(self, sockets@),
